@@ -95,6 +95,10 @@ pub fn render_frame(sp: &Sprite, f: u16) -> Img {
     let mut canvas = Img::new(sp.width as u32, sp.height as u32);
     let vis = sp.visible();
     for l in 0..sp.layers.len() {
+        if l > u16::MAX as usize {
+            // a cel chunk names its layer in 16 bits: layers from 65536 on never have cels
+            break;
+        }
         if !vis[l] {
             continue;
         }
